@@ -59,11 +59,20 @@ enum Op {
     CkDel(u64),
     /// `CHECKPOINTS LIMIT n`
     CkTop(u64),
+    /// destructive statements through the router TEXT API (auto-checkpoint protection on):
+    /// `DELETE FROM t WHERE k = x`, `NODE DELETE i`, `EMBED DELETE 'e<k>'`
+    TDel(u64, i64),
+    TNodeDel(u64),
+    TEmbDel(u64),
 }
 
 /// ids and names are strings of one space, coded for the model: code < 1000 = the id string of
 /// checkpoint number `code`, code >= 1000 = the proper name `c<code-1000>`
 const NAME0: u64 = 1000;
+/// name codes of the auto-checkpoints `create_auto` makes (`auto-before-<operation>`)
+const AUTO_DELETE: u64 = NAME0 + 60;
+const AUTO_NODE_DELETE: u64 = NAME0 + 61;
+const AUTO_EMBED_DELETE: u64 = NAME0 + 62;
 
 impl Op {
     fn tag(&self) -> &'static str {
@@ -94,6 +103,9 @@ impl Op {
             }
             Op::CkDel(_) => "ckdel",
             Op::CkTop(_) => "cktop",
+            Op::TDel(..) => "text_delete",
+            Op::TNodeDel(_) => "text_node_delete",
+            Op::TEmbDel(_) => "text_embed_delete",
         }
     }
     /// the model line (checkpoint lines are built by the caller: they need ts / ord)
@@ -122,6 +134,9 @@ impl Op {
             Op::Rollback(c) => format!("rollback {c} -"),
             Op::CkDel(c) => format!("ckdel {c} -"),
             Op::CkTop(n) => format!("cktop {n}"),
+            Op::TDel(t, k) => format!("rdel {t} {k}"),
+            Op::TNodeDel(i) => format!("gdeln {i}"),
+            Op::TEmbDel(k) => format!("vdel {k}"),
         }
     }
 }
@@ -187,14 +202,15 @@ struct Sys {
 }
 
 impl Sys {
-    fn new(max: usize) -> Sys {
+    /// `auto`: auto-checkpoint before destructive statements, no interactive confirmation
+    fn new_with(max: usize, auto: bool) -> Sys {
         let mut router = QueryRouter::new();
         router.init_blob_with_config(BlobConfig::default()).expect("init_blob");
         router
             .init_checkpoint_with_config(
                 CheckpointConfig::new()
                     .with_max_checkpoints(max)
-                    .with_auto_checkpoint(false)
+                    .with_auto_checkpoint(auto)
                     .with_interactive_confirm(false),
             )
             .expect("init_checkpoint");
@@ -306,13 +322,64 @@ impl Sys {
                 #[allow(unreachable_patterns)]
                 Err(e) => format!("err other:{e:?}"),
             },
-            Op::Ckpt(_) | Op::Rollback(_) | Op::CkDel(_) | Op::CkTop(_) => unreachable!("handled by the stream"),
+            Op::Ckpt(_) | Op::Rollback(_) | Op::CkDel(_) | Op::CkTop(_) | Op::TDel(..) | Op::TNodeDel(_) | Op::TEmbDel(_) => {
+                unreachable!("handled by the stream")
+            }
         }
+    }
+
+    /// a destructive statement through the router text API; the answer in the engine ops' terms
+    fn text_destructive(&self, op: &Op) -> String {
+        let (stmt, is_count) = match op {
+            Op::TDel(t, k) => (format!("DELETE FROM {} WHERE k = {k}", Self::tname(*t)), true),
+            Op::TNodeDel(i) => (format!("NODE DELETE {i}"), false),
+            Op::TEmbDel(k) => (format!("EMBED DELETE 'e{k}'"), false),
+            _ => unreachable!(),
+        };
+        match self.router.execute_parsed(&stmt) {
+            Ok(QueryResult::Count(n)) => {
+                if is_count {
+                    format!("count {n}")
+                } else {
+                    "ok".into()
+                }
+            }
+            Ok(other) => format!("err other:{other:?}"),
+            Err(e) => {
+                let s = e.to_string();
+                let l = s.to_lowercase();
+                if l.contains("storage error") {
+                    "err storage".into()
+                } else if l.contains("not found") {
+                    "err notfound".into()
+                } else {
+                    format!("err other:{s}")
+                }
+            }
+        }
+    }
+
+    /// (real id, name, created_at) of every listed checkpoint
+    fn listing(&self) -> Vec<(String, String, u64)> {
+        let blob = self.router.blob().expect("blob").clone();
+        self.rt
+            .block_on(async {
+                let b = blob.lock().await;
+                CheckpointStorage::list(&b).await
+            })
+            .map(|l| l.into_iter().map(|c| (c.id, c.name, c.created_at)).collect())
+            .unwrap_or_default()
     }
 
     /// the string a target / name code stands for
     fn code_str(&self, code: u64) -> String {
-        if code >= NAME0 {
+        if code == AUTO_DELETE {
+            "auto-before-delete".into()
+        } else if code == AUTO_NODE_DELETE {
+            "auto-before-node-delete".into()
+        } else if code == AUTO_EMBED_DELETE {
+            "auto-before-embed-delete".into()
+        } else if code >= NAME0 {
             format!("c{}", code - NAME0)
         } else {
             self.ck_real.get(&code).cloned().unwrap_or_else(|| format!("hid-{code}"))
@@ -750,6 +817,8 @@ impl Ctx {
 enum Mode {
     Router,
     Manager,
+    /// router statements with auto-checkpoint protection on (destructive statements through the text API)
+    Auto,
 }
 
 struct Gen {
@@ -769,6 +838,8 @@ fn gen_target(r: &mut Rng, n_ck: u64, mode: Mode) -> u64 {
         r.below(n_ck) // by id
     } else if mode == Mode::Manager && r.chance(1, 4) {
         SHARED_NAMES[r.below(2) as usize]
+    } else if mode == Mode::Auto && r.chance(1, 3) {
+        [AUTO_DELETE, AUTO_NODE_DELETE, AUTO_EMBED_DELETE][r.below(3) as usize]
     } else {
         NAME0 + r.below(n_ck) // by its own name
     }
@@ -845,7 +916,8 @@ fn gen_op(r: &mut Rng, g: &mut Gen, n_ck: u64, raw_mix: bool, mode: Mode) -> Op 
 
 /// run one op list on a fresh real system + the model; returns true if everything agreed
 fn run_case(ctx: &mut Ctx, m: &mut Model, stream: &str, mode: Mode, max: usize, ops: &[Op], tss: &[u64], record: bool) -> (bool, bool) {
-    let mut sys = Sys::new(max);
+    let auto = mode == Mode::Auto;
+    let mut sys = Sys::new_with(max, auto);
     m.ask("reset");
     m.ask(&format!("setmax {max}"));
     let mut agreed = true;
@@ -870,7 +942,7 @@ fn run_case(ctx: &mut Ctx, m: &mut Model, stream: &str, mode: Mode, max: usize, 
                 ck_i += 1;
                 let name = name.unwrap_or(NAME0 + sys.next_ck);
                 let (n, ans) =
-                    if mode == Mode::Router { sys.checkpoint_router(name, ts) } else { sys.checkpoint_manager(name, ts) };
+                    if mode != Mode::Manager { sys.checkpoint_router(name, ts) } else { sys.checkpoint_manager(name, ts) };
                 oracle.insert(n, before);
                 let live_after = sys.live_ids();
                 // the by_tag order is a hash-set order: reconstruct one consistent with what was kept
@@ -982,6 +1054,62 @@ fn run_case(ctx: &mut Ctx, m: &mut Model, stream: &str, mode: Mode, max: usize, 
                     }
                     Err(e) => (format!("err other:{e}"), format!("cktop {n} -")),
                 }
+            }
+            Op::TDel(..) | Op::TNodeDel(_) | Op::TEmbDel(_) => {
+                // the image BEFORE the destructive statement is what its auto-checkpoint must hold
+                let before = sys.image();
+                let live_before = sys.live_ids();
+                let known: BTreeSet<String> = sys.ck_real.values().cloned().collect();
+                let expect_auto = match op {
+                    Op::TDel(t, k) => before
+                        .tables
+                        .iter()
+                        .find(|x| x.0 == *t)
+                        .and_then(|x| x.1.strip_prefix("ok:"))
+                        .is_some_and(|rows| rows.split(',').any(|r| r.split('.').nth(1) == Some(&k.to_string()))),
+                    _ => true,
+                } && auto;
+                let (name, name_s) = match op {
+                    Op::TDel(..) => (AUTO_DELETE, "auto-before-delete"),
+                    Op::TNodeDel(_) => (AUTO_NODE_DELETE, "auto-before-node-delete"),
+                    _ => (AUTO_EMBED_DELETE, "auto-before-embed-delete"),
+                };
+                let ans = sys.text_destructive(op);
+                let fresh: Vec<(String, String, u64)> =
+                    sys.listing().into_iter().filter(|c| !known.contains(&c.0)).collect();
+                if fresh.len() != usize::from(expect_auto) || fresh.iter().any(|c| c.1 != name_s) {
+                    violated = true;
+                    ctx.violation(
+                        "query_router.auto_checkpoint/missing_or_unexpected",
+                        &format!("statement {op:?}: auto-checkpoints created {fresh:?}, expected {} named {name_s}", usize::from(expect_auto)),
+                        json!({"stream": stream, "ops": trace.clone(), "op": format!("{op:?}")}),
+                    );
+                }
+                if let Some(c) = fresh.first() {
+                    // the model takes the auto-checkpoint as an ordinary named checkpoint
+                    let n = sys.next_ck;
+                    sys.next_ck += 1;
+                    sys.ck_real.insert(n, c.0.clone());
+                    sys.ck_meta.insert(n, (name, c.2));
+                    oracle.insert(n, before);
+                    ck_i += 1;
+                    let live_after = sys.live_ids();
+                    let mut ord = live_after.clone();
+                    for i in live_before.iter().chain(std::iter::once(&n)) {
+                        if !ord.contains(i) {
+                            ord.push(*i);
+                        }
+                    }
+                    let ck_line = format!("ckpt {} {} {name}", c.2, nats(&ord));
+                    trace.push(ck_line.clone());
+                    let mo = m.ask(&ck_line);
+                    let tr = trace.clone();
+                    if !ctx.rep.compare(stream, || json!({"ops": tr, "what": "auto-checkpoint"}), &format!("id {n}"), &mo) {
+                        agreed = false;
+                    }
+                    ctx.rep.hit("auto_checkpoint:created");
+                }
+                (ans, op.line())
             }
             Op::Rollback(code) => {
                 let live_before = sys.live_ids();
@@ -1123,15 +1251,36 @@ fn run_case(ctx: &mut Ctx, m: &mut Model, stream: &str, mode: Mode, max: usize, 
 fn stream_router(ctx: &mut Ctx, m: &mut Model, rng: &Rng, cases: usize, mode: Mode, name: &str) {
     let mut r = rng.fork(name);
     for _ in 0..cases {
-        let max = if mode == Mode::Router { 10 } else { 1 + r.below(4) as usize };
+        let max = if mode != Mode::Manager { 10 } else { 1 + r.below(4) as usize };
         let len = 12 + r.below(30) as usize;
         let mut g = Gen { tables: 3, nodes_hi: 0, edges_hi: 0 };
         let mut ops = vec![];
         let mut n_ck = 0u64;
+        let mut n_auto = 0u64;
         let raw_mix = r.chance(1, 3);
         for _ in 0..len {
-            let op = gen_op(&mut r, &mut g, n_ck, raw_mix, mode);
+            let mut op = gen_op(&mut r, &mut g, n_ck, raw_mix, mode);
+            if mode == Mode::Auto && r.chance(2, 3) {
+                // the destructive statements go through the router text API (auto-checkpoint first)
+                op = match op {
+                    Op::RDel(t, k) => Op::TDel(t, k),
+                    Op::GDelN(i) => Op::TNodeDel(i),
+                    Op::VDel(k) => Op::TEmbDel(k),
+                    o => o,
+                };
+            }
+            if matches!(op, Op::TDel(..) | Op::TNodeDel(_) | Op::TEmbDel(_)) {
+                // each may add one auto-checkpoint: stay below max_checkpoints = 10 in total
+                if n_auto >= 5 {
+                    continue;
+                }
+                n_auto += 1;
+                n_ck += 1;
+            }
             if matches!(op, Op::Ckpt(_)) {
+                if mode == Mode::Auto && n_ck - n_auto >= 3 {
+                    continue;
+                }
                 if mode == Mode::Router && n_ck >= 5 {
                     continue;
                 }
@@ -1203,6 +1352,18 @@ fn stream_witness(ctx: &mut Ctx, m: &mut Model) {
     for (name, ops, tss) in mcases {
         ctx.rep.hit(&format!("witness:{name}"));
         run_case(ctx, m, "witness", Mode::Manager, 10, &ops, &tss, true);
+    }
+    // auto-checkpoints before destructive text statements: the checkpoint holds the state BEFORE
+    // the statement; rollback to it by name and by id
+    let acases: Vec<(&str, Vec<Op>)> = vec![
+        ("auto_node_delete", vec![Op::GNode(1), Op::GNode(2), Op::GEdge(1, 2), Op::TNodeDel(1), Op::Rollback(AUTO_NODE_DELETE), Op::TNodeDel(7)]),
+        ("auto_embed_delete", vec![Op::VPut(0, vec![1, 2, 3]), Op::VPut(1, vec![0, 1, 0]), Op::TEmbDel(0), Op::VPut(2, vec![1, 1, 1]), Op::Rollback(0), Op::TEmbDel(5)]),
+        ("auto_delete_rows", vec![Op::RCreate(0), Op::RIns(0, 1, 2), Op::RIns(0, 2, 2), Op::TDel(0, 3), Op::TDel(0, 1), Op::Rollback(AUTO_DELETE), Op::TDel(1, 1)]),
+        ("auto_then_manual", vec![kp(1), CK, Op::GNode(0), Op::TNodeDel(1), kp(2), Op::CkTop(3), Op::Rollback(1), rb(0)]),
+    ];
+    for (name, ops) in acases {
+        ctx.rep.hit(&format!("witness:{name}"));
+        run_case(ctx, m, "witness", Mode::Auto, 10, &ops, &[], true);
     }
     // the router's own ids (uuids): ROLLBACK TO '<uuid>' and delete by uuid
     ctx.rep.hit("witness:router_uuid_targets");
@@ -1406,6 +1567,54 @@ fn stream_store_raw(ctx: &mut Ctx, m: &mut Model, rng: &Rng, cases: usize) {
     }
 }
 
+/// Directed: vectors of the slab dimension (384) that are dense and NOT constant.  The model's
+/// vectors are integers / constant `_embedding`s (exactly representable, and exact under the
+/// snapshot's per-vector compression); what the snapshot does to a general dense 384-dim
+/// `_embedding` is float arithmetic outside the model, so the outcome is recorded as `observe`.
+fn directed_dense_embedding(ctx: &mut Ctx) {
+    let dense: Vec<f32> = (0..EMB_DIM).map(|i| ((i * 37 + 11) % 97) as f32 / 7.0 + 0.25).collect();
+    let bits = |v: &[f32]| v.iter().map(|x| x.to_bits()).collect::<Vec<u32>>();
+    // (1) raw `emb:` key with an `_embedding` of the slab dimension: embedding-slab path
+    let store = TensorStore::new();
+    let mut t = TensorData::new();
+    t.set("x", TensorValue::Scalar(ScalarValue::Int(1)));
+    t.set("_embedding", TensorValue::Vector(dense.clone()));
+    store.put("emb:dense", t).expect("put");
+    let bytes = store.snapshot_bytes().expect("snapshot_bytes");
+    store.delete("emb:dense").expect("delete");
+    store.restore_from_bytes(&bytes).expect("restore");
+    let after = match store.get("emb:dense").ok().and_then(|t| t.get("_embedding").cloned()) {
+        Some(TensorValue::Vector(v)) => v,
+        other => {
+            ctx.rep.observe(json!({"class": "tensor_store.restore_from_bytes/dense_embedding_perturbed", "what": format!("after restore the key holds {other:?}")}));
+            return;
+        }
+    };
+    ctx.rep.hit("directed:dense_embedding");
+    if bits(&after) != bits(&dense) {
+        let max_err = after.iter().zip(&dense).map(|(a, b)| (a - b).abs()).fold(0f32, f32::max);
+        ctx.rep.hit("directed:dense_embedding_perturbed");
+        ctx.rep.observe(json!({"class": "tensor_store.restore_from_bytes/dense_embedding_perturbed",
+            "what": "a dense non-constant 384-dim `_embedding` under an `emb:` key does not come back bit-exact from snapshot_bytes + restore_from_bytes (= checkpoint + rollback): the snapshot stores the embedding-slab copy through tensor-train compression and the restore re-puts that copy over the exact one kept in the metadata value (same root cause as the C07 finding tensor_store.restore_from_bytes/metadata_not_restored)",
+            "max_abs_error": max_err, "len": after.len()}));
+    }
+    // (2) the vector engine's own path (`vector` field, metadata slab only): must be exact
+    let sys = Sys::new_with(10, false);
+    let v = sys.router.vector();
+    v.store_embedding("dense", dense.clone()).expect("store_embedding");
+    let ck = sys.router.execute_parsed("CHECKPOINT 'dense'");
+    let _ = v.delete_embedding("dense");
+    let rb = sys.router.execute_parsed("ROLLBACK TO 'dense'");
+    match v.get_embedding("dense") {
+        Ok(back) if bits(&back) == bits(&dense) => ctx.rep.hit("directed:dense_vector_engine_exact"),
+        other => ctx.violation(
+            "query_router.rollback/vector_state_not_restored",
+            "a dense 384-dim embedding stored through the vector engine is not bit-exact after CHECKPOINT / EMBED DELETE / ROLLBACK",
+            json!({"checkpoint": format!("{ck:?}"), "rollback": format!("{rb:?}"), "got": format!("{:?}", other.map(|v| v.len()))}),
+        ),
+    }
+}
+
 const SLAB_DIM: usize = 4;
 
 fn slab_vec(v: i64) -> Vec<f32> {
@@ -1541,7 +1750,7 @@ fn main() {
         "op:rcreate", "op:rdrop", "op:rins", "op:rdel", "op:rhidx", "op:rbidx", "op:gnode", "op:gedge", "op:gdeln",
         "op:gdele", "op:vput", "op:vdel", "op:vbuild", "op:kput", "op:kdel", "op:ckpt", "op:rollback",
         "op:ckpt_named", "op:rollback_by_id", "op:ckdel", "op:cktop", "rollback:id_shadowed_by_name",
-        "rollback:by_shared_or_foreign_name", "slab:set", "slab:del", "slab:clear", "slab:compact", "slab:reload",
+        "rollback:by_shared_or_foreign_name", "directed:dense_embedding", "directed:dense_vector_engine_exact", "op:text_delete", "op:text_node_delete", "op:text_embed_delete", "auto_checkpoint:created", "slab:set", "slab:del", "slab:clear", "slab:compact", "slab:reload",
         "res:ok", "res:id", "res:count", "res:err notfound", "res:err exists", "res:err storage",
         "retention:tie_at_boundary", "retention:incremental", "retention:bulk", "raw:restore",
         "directed:tensor_store.restore_from_bytes/relational_tables_lost",
@@ -1561,6 +1770,7 @@ fn main() {
     // before any seeded stream runs
     stream_witness(&mut ctx, &mut m);
     stream_retention_tie_directed(&mut ctx, &mut m);
+    directed_dense_embedding(&mut ctx);
     let directed: Vec<String> = ctx.per_class.keys().cloned().collect();
     for c in &directed {
         ctx.rep.hit(&format!("directed:{c}"));
@@ -1577,6 +1787,8 @@ fn main() {
     mark("router", &mut laps);
     stream_router(&mut ctx, &mut m, &rng, 60 * scale, Mode::Manager, "manager");
     mark("manager", &mut laps);
+    stream_router(&mut ctx, &mut m, &rng, 15 * scale, Mode::Auto, "auto");
+    mark("auto", &mut laps);
     stream_retention(&mut ctx, &mut m, &rng, 300 * scale);
     mark("retention", &mut laps);
     stream_store_raw(&mut ctx, &mut m, &rng, 150 * scale);
